@@ -32,6 +32,8 @@ def make_jobs(prop, tier, only=None):
                 jobs.append(dict(prop=prop, docs=[d], scalar=True, ops=['all'], alphabet=part, timeout=1800))
         # two adjacent symbolic characters at every position of the scalar corpus
         for name in snames:
+            if prop == 'C09' and name in ('date', 'time', 'time6', 'dt', 'dtz'):
+                continue        # two symbolic digits reach strptime/iso8601 after forking over 100 digit pairs per position: hours per document
             jobs.append(dict(prop=prop, docs=[name], scalar=True, ops=['replace2'], timeout=1800))
     if only:
         jobs = [j for j in jobs if only in ','.join(j['docs'])]
@@ -133,7 +135,7 @@ def run(chk):
                       mutation='one symbolic code point (U+0000..U+10FFFF minus surrogates) replacing the character at position i, or inserted before position i',
                       positions='every third position (quick) / every position (thorough) of 7 grid documents (40-230 chars); every position of 17 scalar texts',
                       nesting='lists/dicts/nested grid to depth 2',
-                      fully_symbolic='every scalar text of 1..2 (quick) / 1..3 (thorough) code points, versions 2.0 and 3.0; thorough: two adjacent symbolic characters at every position of the scalar corpus')
+                      fully_symbolic='every scalar text of 1..2 (quick) / 1..3 (thorough) code points, versions 2.0 and 3.0; thorough: two adjacent symbolic characters at every position of the scalar corpus (date/time texts: single positions only)')
     chk.assumptions = ['a single mutated position per grid document; adjacent pairs on scalars in the thorough tier only (other two-position interactions outside the claim)',
                        'over-acceptance is reported only when the independent reference rejects for a structural reason the property names: ' + ', '.join(mutworker.STRUCTURAL),
                        '(line, col) == (0, 0) is the class\'s documented "unknown position" and counts as within the text',
